@@ -16,3 +16,34 @@ def make_val(kind, n):
     if kind == "empty":
         return ""
     return Obj(n, "payload")
+
+
+# One evaluation that keeps the same result (same function, same literal arguments: one blob key) under two paths.
+import dds  # noqa: E402
+
+
+def alias0():
+    a = dds.keep("/al/x", make_val, "str", 1)
+    b = dds.keep("/al/y", make_val, "str", 1)
+    return (a, b)
+
+
+def alias1():
+    a = dds.keep("/al/x", make_val, "obj", 2)
+    b = dds.keep("/am/z", make_val, "obj", 2)
+    c = dds.keep("/al/y", make_val, "bytes", 3)
+    return (a, b, c)
+
+
+def alias2():
+    a = dds.keep("/am/z", make_val, "bytes", 3)
+    b = dds.keep("/al/y", make_val, "bytes", 3)
+    c = dds.keep("/al/w", make_val, "bytes", 3)
+    return (a, b, c)
+
+
+ALIASES = {
+    "alias0": [("/al/x", "str", 1), ("/al/y", "str", 1)],
+    "alias1": [("/al/x", "obj", 2), ("/am/z", "obj", 2), ("/al/y", "bytes", 3)],
+    "alias2": [("/am/z", "bytes", 3), ("/al/y", "bytes", 3), ("/al/w", "bytes", 3)],
+}
